@@ -9,6 +9,8 @@
 //! Repr operands need not fit the precision); `rem` (Context::rem), `rem_vv|vr|rv|rr|assign` (FBig % FBig),
 //! `remeuc_*` (rem_euclid), `diveuc_*` -> `ok <q>`, `divremeuc_*` -> `ok <q> <sig> <exp> NoFlag <prec>`;
 //! `finv finv_r` (Inverse for FBig / &FBig), `addprim_fi|addprim_if|subprim_fi|subprim_if`.
+//! round 4: `addx subx mulx sqrx cubicx` = the Context methods with exponents next to isize::MAX / isize::MIN (exponent
+//! token `min` = isize::MIN); `prod <base> <mode> (<precision> <sig> <exp>)*` = Product for FBig (by value / by reference).
 use dashu_base::{DivEuclid, DivRemEuclid, Inverse, RemEuclid, SquareRoot};
 use dashu_float::round::Round;
 use hlib::*;
@@ -20,21 +22,34 @@ fn run(op: &str, a: &[&str]) -> String {
             let adj = <R as Round>::round_fract::<B>(&ibig(a[3]), ibig(a[4]), usz(a[2]));
             return format!("ok {}", rounding_str(adj));
         }
+        if op == "prod" {
+            // Product for FBig: `prod <base> <mode> (<precision> <sig> <exp>)*`
+            let fs: Vec<FBig<R, B>> = a[2..]
+                .chunks(3)
+                .map(|c| FBig::<R, B>::from_repr(repr_of::<B>(c[1], c[2]), Context::<R>::new(usz(c[0]))))
+                .collect();
+            let v: FBig<R, B> = if a.len() % 2 == 0 { fs.iter().product() } else { fs.into_iter().product() };
+            return format!("ok {} NoFlag {:x}", hrepr(v.repr()), v.precision());
+        }
         let p = usz(a[2]);
         let ctx = Context::<R>::new(p);
-        let x = repr_of::<B>(a[3], a[4]);
+        // the exponent token `min` is isize::MIN (hlib::isz cannot read it)
+        let rp = |sig: &str, exp: &str| -> Repr<B> {
+            if exp == "min" { Repr::<B>::new(ibig(sig), isize::MIN) } else { repr_of::<B>(sig, exp) }
+        };
+        let x = rp(a[3], a[4]);
         let two = a.len() >= 7;
-        let y = if two { repr_of::<B>(a[5], a[6]) } else { Repr::<B>::zero() };
+        let y = if two { rp(a[5], a[6]) } else { Repr::<B>::zero() };
         let fx = || FBig::<R, B>::from_repr(x.clone(), ctx);
         let fy = || FBig::<R, B>::from_repr(y.clone(), ctx);
         let val = |v: FBig<R, B>| format!("ok {} NoFlag {:x}", hrepr(v.repr()), v.precision());
         match op {
-            "add" | "addl" => format!("ok {}", hrounded(&ctx.add(&x, &y))),
-            "sub" | "subl" => format!("ok {}", hrounded(&ctx.sub(&x, &y))),
-            "mul" | "mull" => format!("ok {}", hrounded(&ctx.mul(&x, &y))),
+            "add" | "addl" | "addx" => format!("ok {}", hrounded(&ctx.add(&x, &y))),
+            "sub" | "subl" | "subx" => format!("ok {}", hrounded(&ctx.sub(&x, &y))),
+            "mul" | "mull" | "mulx" => format!("ok {}", hrounded(&ctx.mul(&x, &y))),
             "div" | "divl" => format!("ok {}", hrounded(&ctx.div(&x, &y))),
-            "sqr" | "sqrl" => format!("ok {}", hrounded(&ctx.sqr(&x))),
-            "cubic" | "cubicl" => format!("ok {}", hrounded(&ctx.cubic(&x))),
+            "sqr" | "sqrl" | "sqrx" => format!("ok {}", hrounded(&ctx.sqr(&x))),
+            "cubic" | "cubicl" | "cubicx" => format!("ok {}", hrounded(&ctx.cubic(&x))),
             "sqrt" | "sqrtl" => format!("ok {}", hrounded(&ctx.sqrt(&x))),
             "inv" | "invl" => format!("ok {}", hrounded(&ctx.inv(&x))),
             "rem" => format!("ok {}", hrounded(&ctx.rem(&x, &y))),
